@@ -8,9 +8,15 @@ Legs (DESIGN.md section 4, C12):
   G  the same sets x orders x splits, rendered as definitions.units text (one self-contained text per item,
      files = concatenations, parsed lists concatenated as cli/src/config.rs does), are loaded by the real
      code: all dumps of one set must be equal (else VIOLATION) and equal to the model's database (else DRIFT).
+     Three universes: prefix / plural collisions (gen), a reference with two readings (amb), references that are
+     not names (fwd: long names of base units, element symbols, chemical formulas, a `!symbol` line apart from
+     its substance).  "Forward references resolve" (Loader.ForwardRefsResolve) on the code: every definition a
+     load refused is loaded once more, alone, on top of the finished database - it must be refused again.
   V  the bundled database (and the currency overlay on top of it): the parsed definition list in identity,
      reversed, rotated, dependency-reversed and seeded random orders, each also split into 2 and 3 lists;
-     canonical registry dumps must be byte-equal.
+     canonical registry dumps must be byte-equal.  Plus the list extended by a copy of every unit and substance
+     definition under a fresh name that sorts before / after every other name: every copy must mean what its
+     original means (a name's place in the alphabet, which is the resolver's order, must not matter).
   T  every group of loads is a line of a trace validated by Trace_Order.tla (the database is a function of
      the set); one corrupted trace must be rejected.
 """
@@ -67,22 +73,33 @@ def leg_design(run, thorough):
         log(r.stdout[-3000:])
         raise vlib.ToolError("design model MC_Loader_q does not satisfy its properties (%s)" % r.invariant_violated)
     run.add_tlc(r, "MC_Loader_q (invariants, Progress, <>Done)")
-    # non-vacuity of TopoOrder: the strict variant (no exclusion for long names of base units) must fail
-    r = vlib.tlc("MC_Loader", "MC_Loader_longname", workers=1, timeout=300, tag="c12s")
-    if r.invariant_violated != "TopoOrderStrict":
-        raise vlib.ToolError("sanity: MC_Loader_longname should violate TopoOrderStrict (got %s)" % r.invariant_violated)
-    run.note("sanity_strict_topo_order", "TopoOrderStrict violated as expected: a unit mentioning a base unit by its long name "
-             "is emitted first when its own name sorts first (design weakness, independent of the input order)")
+    # non-vacuity of ForwardRefsResolve: the design without the resolver's link from a long name to its base unit
+    # (rink-rs before 3701c96) and without the link from a formula to its elements (before 479bb55) must violate it
+    for cfg, what in (("MC_Loader_longname", "LinkLongNames"), ("MC_Loader_noformula", "LinkFormulas")):
+        r = vlib.tlc("MC_Loader", cfg, workers=1, timeout=300, tag="c12s")
+        if r.invariant_violated != "ForwardRefsResolve":
+            raise vlib.ToolError("sanity: %s (design without %s) should violate ForwardRefsResolve (got %s)" % (cfg, what, r.invariant_violated))
+    run.note("sanity_forward_refs", "ForwardRefsResolve is violated, as it must be, by the design without LinkLongNames (a unit that "
+             "mentions a base unit by its long name is emitted first when its own name sorts first) and without LinkFormulas")
 
 
 def leg_generated(run, thorough):
-    ev = leg_generated_cfg(run, thorough, "MC_Loader_gen5" if thorough else "MC_Loader_gen4", True, "g")
+    ev = leg_generated_cfg(run, thorough, "MC_Loader_gen5" if thorough else "MC_Loader_gen4", GATE_GEN, "g")
     # a second universe: a reference with two prefix + unit readings (d- / da-, am / m, `dam`)
-    ev += leg_generated_cfg(run, thorough, "MC_Loader_amb", False, "a")
+    ev += leg_generated_cfg(run, thorough, "MC_Loader_amb", (), "a")
+    # a third universe: references through long names of base units, element symbols and chemical formulas, from
+    # names that sort before and after what they refer to; a `!symbol` line in another file than its substance
+    ev += leg_generated_cfg(run, thorough, "MC_Loader_fwd5" if thorough else "MC_Loader_fwd", GATE_FWD, "f")
     return ev
 
 
-def leg_generated_cfg(run, thorough, cfg, with_gate, pfx):
+GATE_GEN = ("cycle_reported", "dependency_emitted_early", "evaluation_failed", "unit_via_prefix_or_plural", "substance_loaded",
+            "quantity_loaded", "doc_conflict")
+GATE_FWD = ("dependency_emitted_early", "evaluation_failed", "substance_loaded", "symbol_registered", "formula_unit_loaded",
+            "unit_via_long_name", "symbol_directive_apart")
+
+
+def leg_generated_cfg(run, thorough, cfg, gate_names, pfx):
     # (no -coverage here: TLC's cost accounting of the recursive operators exhausts the heap; the vacuity gate
     # below looks at what the behaviours did instead)
     r = vlib.tlc("MC_Loader", cfg, workers=8 if thorough else 6, timeout=3000, tag="c12g", xmx="24g" if thorough else "8g")
@@ -96,9 +113,14 @@ def leg_generated_cfg(run, thorough, cfg, with_gate, pfx):
         raise vlib.ToolError("generator printed no cases")
     ambig = sum(1 for ln in r.stdout.splitlines() if ln.startswith('<<"AMBIG"'))
     texts = [lk.item_text(it) for it in pool]
+    has_dir = [any(d["kind"] == "symdir" for d in it) for it in pool]
+    # one group of loads per set and - where the set has `!symbol` lines of their own - per way of placing them
+    # in / outside the file of their substance (the groups of one set are compared with each other further down)
     groups = collections.defaultdict(list)
     for c in cases:
-        groups[tuple(sorted(i for f in c for i in f))].append(c)
+        key = tuple(sorted(i for f in c for i in f))
+        sig = lk.symdir_signature(pool, c) if any(has_dir[i - 1] for i in key) else ()
+        groups[(key, sig)].append(c)
     model = {}
     for db in dbs:
         model[frozenset(lk.def_key(d) for d in db["set"])] = db
@@ -107,7 +129,14 @@ def leg_generated_cfg(run, thorough, cfg, with_gate, pfx):
     def emitted_early(db):
         ids = [(x["ns"], x["name"]) for x in db["sorted"]]
         return ids != sorted(ids)
+    by_set = collections.defaultdict(set)
+    for key, sig in groups:
+        by_set[key].add(sig)
     gate = {
+        "symbol_registered": sum(1 for db in dbs if db.get("symbols")),
+        "formula_unit_loaded": sum(1 for db in dbs if db["silent"] and db.get("symbols")),
+        "unit_via_long_name": sum(1 for db in dbs if any(lk.s(u["name"]) in ("a", "ac") for u in db["units"])),
+        "symbol_directive_apart": sum(1 for sigs in by_set.values() if len(sigs) > 1),
         "cycle_reported": sum(1 for db in dbs if any(e["k"] == "cycle" for e in db["errors"])),
         "dependency_emitted_early": sum(1 for db in dbs if emitted_early(db)),
         "evaluation_failed": sum(1 for db in dbs if any(e["k"] in ("malformed", "prefix", "quantity", "subst") for e in db["errors"])),
@@ -116,24 +145,25 @@ def leg_generated_cfg(run, thorough, cfg, with_gate, pfx):
         "quantity_loaded": sum(1 for db in dbs if db["quants"]),
         "doc_conflict": sum(1 for db in dbs if any(e["k"] == "docconflict" for e in db["errors"])),
     }
-    empty = [k for k, v in gate.items() if v == 0] if with_gate else []
+    empty = [k for k in gate_names if gate[k] == 0]
     if empty:
-        raise vlib.ToolError("vacuity gate: the generated behaviours never show: %s" % empty)
-    if with_gate:
-        run.note("vacuity_gate", gate)
+        raise vlib.ToolError("vacuity gate: the generated behaviours of %s never show: %s" % (cfg, empty))
+    if gate_names:
+        run.note("vacuity_gate_" + cfg, {k: gate[k] for k in gate_names})
     keys = sorted(groups)
     jobs = []
-    for gi, key in enumerate(keys):
+    for gi, (key, sig) in enumerate(keys):
         idx = {it: j for j, it in enumerate(key)}
         jobs.append({"id": gi, "texts": [texts[i - 1] for i in key],
-                     "cases": [[[idx[i] for i in f] for f in c] for c in groups[key]]})
-    log("[C12] G: %d sets, %d orders x splits, %d model databases (%d ambiguous-reading sets where the fixed point fails)" % (
-        len(keys), len(cases), len(dbs), ambig))
+                     "cases": [[[idx[i] for i in f] for f in c] for c in groups[(key, sig)]]})
+    log("[C12] G %s: %d sets, %d orders x splits, %d model databases (%d ambiguous-reading sets where the fixed point fails)" % (
+        cfg, len(by_set), len(cases), len(dbs), ambig))
     res = lk.run_load("gen", jobs, shards=12 if thorough else 8, tag="c12g" + pfx)
     events = []
     ndrift = nsilent = nloads = 0
-    cyc_sets = err_sets = 0
-    for gi, (key, rr, job) in enumerate(zip(keys, res, jobs)):
+    cyc_sets = err_sets = nrefused = namb_fwd = 0
+    dump_of = {}
+    for gi, ((key, sig), rr, job) in enumerate(zip(keys, res, jobs)):
         run.count(len(job["cases"]))
         nloads += len(job["cases"])
         items = [texts[i - 1] for i in key]
@@ -150,17 +180,42 @@ def leg_generated_cfg(run, thorough, cfg, with_gate, pfx):
         if rr["dump"] is None:
             continue        # every order panicked (reported above): there is no database to compare
         if len(key) > 1:
-            run.nontrivial(pfx + ":" + ",".join(map(str, key)))
+            run.nontrivial(pfx + ":" + ",".join(map(str, key)) + (":%s" % (sig,) if len(by_set[key]) > 1 else ""))
+        dump_of[(key, sig)] = (rr["digest"], job["cases"][0])
         if rr["diffs"]:
             d = rr["diffs"][0]
             run.violation({"engine": "gen", "kind": "order-dependent", "texts": items, "cases": [job["cases"][0], d.get("files")],
                            "diff": d.get("diff")},
                           "one database for every order and split of the set", {"diff": d.get("diff"), "orders_differing": len(rr["diffs"])}, "gen")
             continue
-        defs = frozenset(lk.def_key(d) for i in key for d in pool[i - 1])
+        case0 = groups[(key, sig)][0]
+        defs = frozenset(lk.def_key(d) for f in case0 for d in lk.parse_file_model([pool[i - 1] for i in f]))
         m = model.get(defs)
         if m is None:
             raise vlib.ToolError("no model database for item set %s" % (key,))
+        # "forward references resolve" (Loader.ForwardRefsResolve on the code): what the load refused must be refused
+        # again when it is loaded alone on top of the finished database
+        refused = lk.refused(rr["dump"]["load"].get("msgs", []))
+        again = set()
+        for e in rr.get("reload") or []:
+            if e.get("panic"):
+                run.violation({"engine": "gen", "kind": "panic", "texts": items, "cases": [job["cases"][0]], "msg": "second load panicked"},
+                              "loading terminates with a database, whatever the order", e, "gen")
+            elif (e["ns"], e["name"]) in lk.refused(e["load"].get("msgs", [])):
+                again.add((e["ns"], e["name"]))
+        unresolved = sorted(refused - again)
+        nrefused += len(refused)
+        events.append({"ev": "reload", "set": "%s%d" % (pfx, gi), "refused": len(refused), "still": len(refused & again),
+                       "amb": bool(m["ambiguous"])})
+        if unresolved and m["ambiguous"]:
+            namb_fwd += 1      # a reference with two readings: outside the scope of ForwardRefsScoped
+        elif unresolved:
+            run.violation({"engine": "gen", "kind": "forward-reference", "texts": items, "cases": [job["cases"][0]],
+                           "refused": ["%d:%s" % u for u in unresolved]},
+                          "forward references resolve: a definition is refused only if it is also refused when it is loaded after "
+                          "everything else the set defines",
+                          {"refused_by_the_load": [x for x in rr["dump"]["load"].get("msgs", []) if any(u[1] in x for u in unresolved)][:4],
+                           "loads_alone_on_the_finished_database": ["%d:%s" % u for u in unresolved]}, "gen")
         if m["silent"]:
             nsilent += 1
             continue
@@ -175,11 +230,29 @@ def leg_generated_cfg(run, thorough, cfg, with_gate, pfx):
             ndrift += 1
             if ndrift <= 5:
                 run.drift_note("Loader", "set %s: %s" % ([t.strip() for t in items], d[:300]))
-    run.note("generated_sets_" + cfg, {"sets": len(keys), "loads": nloads, "model_silent": nsilent, "drift": ndrift,
+    # a `!symbol` line names its substance: whether it is in the file of the substance or in another one must not matter
+    napart = 0
+    for key, sigs in by_set.items():
+        if len(sigs) < 2:
+            continue
+        full = max(sigs, key=len)
+        for sig in sorted(sigs):
+            if sig == full or (key, sig) not in dump_of or (key, full) not in dump_of:
+                continue
+            if dump_of[(key, sig)][0] != dump_of[(key, full)][0]:
+                napart += 1
+                run.violation({"engine": "gen", "kind": "order-dependent", "family": "symbol-directive-apart",
+                               "texts": [texts[i - 1] for i in key], "cases": [dump_of[(key, full)][1], dump_of[(key, sig)][1]],
+                               "directives_apart": [list(x) for x in sorted(set(full) - set(sig))]},
+                              "one database for every order and split of the set",
+                              {"differs": "the loads in which the `!symbol` line is in another file than its substance"}, "gen")
+    run.note("generated_sets_" + cfg, {"sets": len(by_set), "groups": len(keys), "loads": nloads, "model_silent": nsilent, "drift": ndrift,
                                 "sets_with_load_errors": err_sets, "sets_with_cycle_reports": cyc_sets,
-                                "ambiguous_reading_sets_failing_fixed_point": ambig})
+                                "ambiguous_reading_sets_failing_fixed_point": ambig,
+                                "definitions_refused": nrefused, "ambiguous_reading_sets_with_unresolved_reference": namb_fwd,
+                                "symbol_directive_apart_differs": napart})
     mid = keys[len(keys) // 2]
-    run.sample({"leg": "G", "set": [texts[i - 1] for i in mid], "orders_x_splits": len(groups[mid])})
+    run.sample({"leg": "G", "universe": cfg, "set": [texts[i - 1] for i in mid[0]], "orders_x_splits": len(groups[mid])})
     return events
 
 
@@ -192,6 +265,7 @@ def leg_bundled(run, thorough, seed):
                        "--dumpdir", dumpdir], timeout=3000)
         res = vlib.read_ndjson(outp)
         ref = None
+        ncopies = ncopyable = 0
         for r in res:
             run.count()
             case = {"engine": "perm", "ctx": ctx, "perm": r.get("perm"), "arg": r.get("arg"), "k": r.get("k")}
@@ -205,6 +279,17 @@ def leg_bundled(run, thorough, seed):
                     raise vlib.ToolError("the uniquely named reduction of the %s list does not load to the same database as the full list" % ctx)
                 run.note("reopened_categories_%s" % ctx, r.get("dropped"))
                 continue
+            if r["perm"] == "clone":
+                run.nontrivial("%s:copies:%s" % (ctx, r["arg"]))
+                events.append({"ev": "copies", "set": r["set"], "copies": r["copies"], "agree": r["agree"]})
+                if not r["equal"]:
+                    run.violation(dict(case, kind="renamed-copy-differs", diff=r.get("diff")),
+                                  "a copy of a definition under a fresh name (sorting %s every other name) means what the original means, "
+                                  "and the load reports nothing new" % ("before" if r["arg"] == 0 else "after"),
+                                  {"diff": r.get("diff"), "msgs": r.get("msgs")}, "perm")
+                ncopies = r["copies"]
+                ncopyable = r["copyable"]
+                continue
             if r["perm"] == "identity" and r["k"] == 1:
                 ref = r["digest"]
             if r.get("moved", 0) > 0:
@@ -213,8 +298,60 @@ def leg_bundled(run, thorough, seed):
             if not r["equal"]:
                 run.violation(dict(case, kind="order-dependent", diff=r.get("diff")),
                               "the registry dump of the identity order (byte-equal)", {"diff": r.get("diff"), "dump": r.get("dump")}, "perm")
-        run.sample({"leg": "V", "ctx": ctx, "loads": len(res), "definitions": res[-1].get("n"), "identity_digest": ref})
+        events += copies_one_by_one(run, thorough, seed, ctx, ncopyable)
+        run.sample({"leg": "V", "ctx": ctx, "loads": len(res), "definitions": res[-1].get("n"), "identity_digest": ref,
+                    "renamed_copies": ncopies})
         log("[C12] V %s: %d loads of %s definitions" % (ctx, len(res), res[-1].get("n")))
+    return events
+
+
+def copies_one_by_one(run, thorough, seed, ctx, ncopyable):
+    """one load per definition: the list plus ONE renamed copy, sorting first (the resolver visits it before anything else
+    has pulled its dependencies in) resp. last; all of them in the thorough tier, a seeded sample in the quick tier"""
+    import concurrent.futures as cf
+    import random
+    rng = random.Random(seed * 7919 + len(ctx))
+    idx = list(range(ncopyable))
+    if not thorough and ctx == "bundled":
+        idx = sorted(rng.sample(idx, min(len(idx), 240)))
+    shards = 12 if thorough else 8
+    jobs = []
+    for arg in (0, 1):
+        pick = idx if arg == 0 else idx[::4]        # sorting last: every dependency is visited first anyway
+        per = min(40, max(1, (len(pick) + shards - 1) // shards))     # a job has a time limit: keep it to at most 40 loads
+        jobs += [{"perm": "clone", "arg": arg, "k": 1, "idx": pick[i:i + per]} for i in range(0, len(pick), per)]
+
+    def one(j):
+        inp = vlib.workfile("c12-copy-%s-%d.ndjson" % (ctx, j))
+        outp = vlib.workfile("c12-copy-%s-%d-out.ndjson" % (ctx, j))
+        vlib.write_ndjson(inp, jobs[j::shards])
+        vlib.run_tool([lk.rv_load(), "perm", "--ctx", ctx, "--in", inp, "--out", outp], timeout=3000)
+        return vlib.read_ndjson(outp)
+
+    with cf.ThreadPoolExecutor(max_workers=shards) as ex:
+        res = [r for part in ex.map(one, range(min(shards, len(jobs)))) for r in part]
+    events = []
+    loads = 0
+    for r in res:
+        case = {"engine": "perm", "ctx": ctx, "perm": "clone", "arg": r.get("arg"), "k": 1}
+        if "crash" in r:
+            run.violation(dict(case, kind="crash", crash=r["crash"]), "loading terminates with a database, whatever the order",
+                          {k: r.get(k) for k in ("crash", "msg", "signal")}, "perm")
+            continue
+        run.count(r["loads"])
+        loads += r["loads"]
+        events.append({"ev": "copies", "set": r["set"], "copies": r["copies"], "agree": r["agree"]})
+        if not r["equal"]:
+            bad = r["diff"]["copies_that_differ"]
+            names = [b["copy_of"] for b in bad]
+            run.violation(dict(case, kind="renamed-copy-differs", copy_of=names[:8], idx=r.get("idx"), diff=r.get("diff")),
+                          "the list plus one copy of a definition under a fresh name (sorting %s every other name): the copy means what the "
+                          "original means and the load reports nothing new" % ("before" if r["arg"] == 0 else "after"),
+                          {"diff": r.get("diff")}, "perm")
+    for i in idx[:2000]:
+        run.nontrivial("%s:copy:%d" % (ctx, i))
+    run.note("renamed_copies_one_per_load_%s" % ctx, {"definitions": len(idx), "of": ncopyable, "loads": loads})
+    log("[C12] V %s: %d loads with one renamed copy each (%d of %d definitions)" % (ctx, loads, len(idx), ncopyable))
     return events
 
 
@@ -309,9 +446,14 @@ def run(tier, seed):
     run.cov["rule"] = ("G: every uniquely named subset (<= %d items) of a universe of definitions with prefix/plural collisions, every "
                        "order, every split into <= 3 files; non-trivial = distinct set of >= 2 items. V: the parsed bundled list "
                        "(and the currency overlay) in identity, reversed, 16 rotations, dependency-reversed and seeded random orders, "
-                       "x 1..3 lists; non-trivial = a load in which at least one definition moved." % (5 if thorough else 4))
+                       "x 1..3 lists, and the list plus a renamed copy of every unit and substance definition (names sorting first / last); "
+                       "non-trivial = a load in which at least one definition moved. Universes of G: gen, amb (two readings), fwd (long "
+                       "names, symbols, formulas, `!symbol` lines)." % (5 if thorough else 4))
     run.assumptions += [
-        "what is permuted is the parsed definition list (Defs.defs); `!category`, `??` and `!symbol` are positional in the text by design",
+        "V: what is permuted is the parsed definition list (Defs.defs); `!category` and `??` are positional in the text by design. "
+        "`!symbol` names its substance: G places the line in every file (known finding where that is another file than the substance's)",
+        "forward references on the code: a definition the load refused is loaded again, alone, as a second load on the finished "
+        "database (prefixes and quantities defined in terms of other prefixes / quantities are always refused there: load-local tables)",
         "uniquely named: of a category id declared more than once in the shipped files only the last (effective) entry is kept",
         "harness trusted for: canonical JSON dump of the Registry maps, byte comparison, SipHash digests",
     ]
@@ -340,6 +482,13 @@ def run(tier, seed):
         ok, _ = vlib.validate_trace("Trace_Order", "Trace_Order", p, tag="c12c")
         if ok:
             raise vlib.ToolError("self-check: a corrupted load trace was accepted by Trace_Order")
+        cp = [dict(e) for e in events if e["ev"] == "copies"][:1]
+        if cp:
+            cp[0]["agree"] -= 1
+            vlib.write_ndjson(p, cp)
+            ok, _ = vlib.validate_trace("Trace_Order", "Trace_Order", p, tag="c12c")
+            if ok:
+                raise vlib.ToolError("self-check: a trace with a renamed copy that differs was accepted by Trace_Order")
         run.note("selfcheck_corrupted_trace_rejected", True)
     return run.finish()
 
@@ -355,11 +504,20 @@ def replay(path, seed):
         log("distinct databases now: %s, panics: %s, crash: %s" % (len(r.get("groups", [])), r.get("crashes"), r.get("crash")))
         for d in r.get("diffs", [])[:2]:
             log("  differs: %s" % d.get("diff"))
+        if case.get("kind") == "forward-reference" and r.get("dump"):
+            refused = lk.refused(r["dump"]["load"].get("msgs", []))
+            again = {(e["ns"], e["name"]) for e in r.get("reload") or [] if not e.get("panic")
+                     and (e["ns"], e["name"]) in lk.refused(e["load"].get("msgs", []))}
+            log("refused by the load: %s; refused again when loaded alone afterwards: %s" % (sorted(refused), sorted(again)))
+            return 1 if refused - again else 0
         return 1 if ("crash" in r or r.get("crashes") or len(r.get("groups", [])) > 1) else 0
     if case.get("engine") == "perm":
         inp = vlib.workfile("c12r.ndjson")
         outp = vlib.workfile("c12r-out.ndjson")
-        vlib.write_ndjson(inp, [{"perm": case["perm"], "arg": case["arg"], "k": case["k"], "cutseed": seed + case["arg"] * 3 + case["k"]}])
+        job = {"perm": case["perm"], "arg": case["arg"], "k": case["k"], "cutseed": seed + case["arg"] * 3 + case["k"]}
+        if case.get("idx") is not None:
+            job["idx"] = case["idx"]
+        vlib.write_ndjson(inp, [job])
         vlib.run_tool([lk.rv_load(), "perm", "--ctx", case["ctx"], "--in", inp, "--out", outp,
                        "--dumpdir", os.path.join(vlib.WORK, "c12-dumps")], timeout=600)
         r = vlib.read_ndjson(outp)[0]
